@@ -97,26 +97,48 @@ Definition toy_parse (s : list N) : option url :=
 Definition toy_sparse (s : list N) : option spec_url :=
   match spec_basic_url_parse toy_shp s None with BDone u => Some u | _ => None end.
 
+Fixpoint lists_eqb (a b : list (list N)) : bool :=
+  match a, b with
+  | [], [] => true
+  | x :: a', y :: b' => list_eqb x y && lists_eqb a' b'
+  | _, _ => false
+  end.
+
+(* the ten API strings of a model record and of a URL record of the Standard are the same *)
+Definition toy_api_agree (u : url) (su : spec_url) : bool :=
+  match model_api true u with
+  | Some a => lists_eqb a (spec_api_list toy_shs su)
+  | None => false
+  end.
+
 (* 0 = the ten API strings agree after the assignment; 1 = they differ; 2 = the start URL does not
    parse on one side / its API strings differ already; 3 = panic or out of fuel *)
 Definition toy_compare (start : list N) (s : qsetter) (v : list N) : N :=
   match toy_parse start, toy_sparse start with
   | Some u, Some su =>
-      if negb (match model_api true u with
-               | Some a => list_eqb (concat (map (fun x => 0 :: x) a))
-                                    (concat (map (fun x => 0 :: x) (spec_api_list toy_shs su)))
-               | None => false end) then 2
+      if negb (toy_api_agree u su) then 2
       else match model_set true toy_hp toy_ho toy_hd s u v, spec_step toy_shp s su v with
-           | Some u', Some su' =>
-               match model_api true u' with
-               | Some a => if list_eqb (concat (map (fun x => 0 :: x) a))
-                                        (concat (map (fun x => 0 :: x) (spec_api_list toy_shs su')))
-                           then 0 else 1
-               | None => 3
-               end
+           | Some u', Some su' => if toy_api_agree u' su' then 0 else 1
            | _, _ => 3
            end
   | _, _ => 2
+  end.
+
+(* a history, checked after every step, up to its first step inside Known_C07 *)
+Fixpoint toy_run_check (u : url) (su : spec_url) (ops : list (qsetter * list N)) : bool :=
+  match ops with
+  | [] => true
+  | (s, v) :: r =>
+      if negb (known_c07 u s v =? 0) then true
+      else match model_set true toy_hp toy_ho toy_hd s u v, spec_step toy_shp s su v with
+           | Some u', Some su' => toy_api_agree u' su' && toy_run_check u' su' r
+           | _, _ => false
+           end
+  end.
+Definition toy_history_ok (start : list N) (ops : list (qsetter * list N)) : bool :=
+  match toy_parse start, toy_sparse start with
+  | Some u, Some su => toy_api_agree u su && toy_run_check u su ops
+  | _, _ => false
   end.
 
 Definition toy_known (start : list N) (s : qsetter) (v : list N) : N :=
